@@ -305,7 +305,51 @@ def gen_ugrid(rng):
     return dict(kind="ugrid", dims=dims, vars=vs, gattrs={"Conventions": "CF-1.11 UGRID-1.0"})
 
 
+# ------------------------------------------------------------------ external variables
+def gen_external(rng):
+    """A parent dataset naming external cell measure variables + 0-3 external files that hold all / some / none
+    of them (possibly the same variable twice, possibly a variable that no file holds) + the list handed to
+    `cfdm.read(external=)` (possibly naming a file twice)."""
+    ny, nx = rng.randint(2, 4), rng.randint(2, 4)
+    names = ["areacello"] if rng.random() < 0.5 else ["areacello", "volcello"]
+    dims = [dict(name="y", size=ny, unlimited=False, group=""), dict(name="x", size=nx, unlimited=False, group="")]
+    measures = {"areacello": "area", "volcello": "volume"}
+    parent = dict(kind="external", dims=dims, vars=[
+        _var("y", "f8", ["y"], {"standard_name": "projection_y_coordinate", "units": "m"}, 0),
+        _var("x", "f8", ["x"], {"standard_name": "projection_x_coordinate", "units": "m"}, 10),
+        _var("tas", rng.choice(["f8", "f4"]), ["y", "x"],
+             {"standard_name": "air_temperature", "units": "K",
+              "cell_measures": " ".join(f"{measures[n]}: {n}" for n in names)}, 20),
+    ], gattrs={"Conventions": "CF-1.11", "external_variables": " ".join(names)})
+    nfiles = rng.choice([0, 1, 2, 2, 2, 3, 3])
+    files = []
+    for k in range(nfiles):
+        r = rng.random()
+        if r < 0.35:
+            held = []                                   # holds none of the named variables
+        elif r < 0.7:
+            held = [rng.choice(names)]                  # holds some
+        else:
+            held = list(names)                          # holds all
+        vs = [_var(n, "f8", ["y", "x"], {"units": "m2" if n == "areacello" else "m3",
+                                          "standard_name": "cell_area" if n == "areacello" else "ocean_volume"},
+                   40 + 30 * k + 5 * i) for i, n in enumerate(held)]
+        vs.append(_var(f"other{k}", "f4", ["y", "x"], {"long_name": f"something else {k}"}, 7 + k))
+        files.append(dict(kind="external_file", dims=[dict(d) for d in dims], vars=vs,
+                          gattrs={"Conventions": "CF-1.11"}, held=held))
+    order = list(range(nfiles))
+    rng.shuffle(order)
+    if nfiles and rng.random() < 0.2:
+        order.append(rng.choice(order))                 # a file listed twice
+    parent["ext_files"] = files
+    parent["ext_list"] = order
+    parent["ext_names"] = names
+    return parent
+
+
 def gen_spec(rng, kind):
+    if kind == "external":
+        return gen_external(rng)
     if kind == "plain":
         return gen_plain(rng)
     if kind == "groups":
